@@ -15,12 +15,15 @@ PROP = dict(
     rule="stress: g in {1..64} goroutines x p in {1..15000} calls of peer.Connection.NextStreamID() on one end (conc) and on both ends at once "
          "(pair) of a connection built with peer.NewConnection over a stub PeerConn; the id set is summarised (n, distinct, min, max, zeros, "
          "wrong-parity, overlap) and compared with the model's; sequential prefixes (seq) and counters positioned near 0/2^63/2^64 through an "
-         "accessor (wrap) are compared id by id; non-trivial = at least 2 goroutines or a positioned counter",
-    nontrivial=lambda op, out: op.startswith(("pair", "wrap", "warm")) or (op.startswith("conc") and op.split()[2] != "1"),
+         "accessor (wrap) are compared id by id; cold = thousands of FRESH connections whose first 2-4 allocations race behind a barrier; life = allocation "
+         "interleaved with every public method of *peer.Connection / *transport.StreamIDAllocator named release/reset/return/free/rewind "
+         "(found by reflection); non-trivial = at least 2 goroutines or a positioned counter",
+    nontrivial=lambda op, out: op.startswith(("pair", "wrap", "warm", "cold", "life")) or (op.startswith("conc") and op.split()[2] != "1"),
     trusted_base=[
         "atomic.Uint64.Add is one indivisible read-modify-write (Go memory model) — the model's atomic step",
         "start values and increment regenerated from the compiled package (MM/Gen/C38.lean); shape of Next checked on the AST "
-        "(harness/extract/c38ast.go): a split Load/Store is rejected, an unrecognised shape is left to the stress run",
+        "(harness/extract/c38ast.go) along Connection.NextStreamID -> StreamIDAllocator.Next over internal/transport and internal/peer: any "
+        "write of the counter other than the constructor's Store and the single Add(+literal) is rejected, an unrecognised shape is left to the stress run",
     ],
     assumptions=[
         "fewer than 2^63 allocations per connection end (hypothesis of the theorems; C38_bound_sharp shows it is tight)",
@@ -38,21 +41,21 @@ PROP = dict(
 
 
 def before_diff(c):
-    """AST tie: how does StreamIDAllocator.Next touch the shared counter?"""
+    """AST tie along the real call path: peer.Connection.NextStreamID -> transport.StreamIDAllocator.Next ->
+    one atomic Add(+literal) on a counter that is otherwise written only by its constructor (scan of every
+    method call on the counter field(s) in internal/transport and internal/peer)."""
     import os
     import re
     import vlib
 
-    src = os.path.join(vlib.REPO, "internal/transport/transport")  # the extractor appends ".go"
-    r = vlib.run(["go", "run", os.path.join(vlib.VERIF, "harness/extract/c38ast.go"), src], cwd=vlib.REPO, env=vlib.GOENV)
+    r = vlib.run(["go", "run", os.path.join(vlib.VERIF, "harness/extract/c38ast.go"), vlib.REPO], cwd=vlib.REPO, env=vlib.GOENV)
     line = (r.stdout or "").strip().split("\n")[-1] if r.stdout else ""
     m = re.match(r"shape=(\S+)", line)
     shape = m.group(1) if (m and r.returncode == 0) else "unknown"
-    # only a positively recognised non-atomic read-modify-write breaks the tie; an unrecognised
-    # shape is not an alarm (the stress run below still compares the id sets)
-    c.oblige("ast:Next-is-one-atomic-read-modify-write", "tie", shape != "load-store", line[:600])
-    c.p.setdefault("extra_coverage", {})["c38_next_shape"] = shape
-
+    # only a positively recognised extra/non-atomic write breaks the tie; an unrecognised structure is not
+    # an alarm (the stress runs below still compare the id sets)
+    c.oblige("ast:stream-id-counter-written-only-by-one-atomic-add", "tie", shape != "violation", line[:800])
+    c.p.setdefault("extra_coverage", {})["c38_counter_shape"] = line[:300]
     # When regenerated constants break the theorems (Lean build fails) the oracle — which depends on
     # the model only — is still built so that the differential run can produce a concrete failing input.
     import shutil
